@@ -7,7 +7,7 @@ VARIABLES l
 Recs == ndJsonDeserialize(IOEnv.TRACE)
 M(r) == r.pred.model
 Clauses == {"Returns", "OutcomesLineUp", "IngredientsScaledExactlyWhenLinear", "CookwareNeverScaled", "TimersNeverScaled",
-            "EverythingElseUnchanged", "DefaultScaleIsVerbatim", "ServingsEquivalence", "ServingsBaseIsFirstDeclared"}
+            "EverythingElseUnchanged", "DefaultScaleIsVerbatim", "ServingsEquivalence", "ServingsBaseIsFirstDeclared", "ServingsSetByHandAreDeclared"}
 Holds(c, r) ==
   CASE c = "Returns" -> r.obs.st = "ok"
     [] c = "OutcomesLineUp" -> r.obs.st = "ok" => (Len(r.obs.igr) = Len(M(r).igr) /\ Len(r.obs.cw) = Len(M(r).cw) /\ Len(r.obs.tm) = Len(M(r).tm)
@@ -19,6 +19,8 @@ Holds(c, r) ==
                                        (NeverScaled(M(r).tm[i].q) /\ ComponentOk(M(r).tm[i].q, r.obs.tm[i]))
     [] c = "EverythingElseUnchanged" -> r.obs.st = "ok" => r.obs.rest_unchanged
     [] c = "DefaultScaleIsVerbatim" -> r.obs.st = "ok" => r.obs.default_verbatim
+    \* set_servings declares them by hand: scale_to_servings(n) after set_servings(<<5, 3>>) is scale(n / 5)
+    [] c = "ServingsSetByHandAreDeclared" -> r.obs.st = "ok" => r.obs.set_servings_equiv
     [] c = "ServingsEquivalence" -> r.obs.st = "ok" => r.obs.servings_equiv
     [] c = "ServingsBaseIsFirstDeclared" -> r.obs.st = "ok" => r.obs.base_used = ServingsBase(M(r).servings)
 Failed(r) == {c \in Clauses : ~Holds(c, r)}
